@@ -179,14 +179,14 @@ CHECKS = {
     ),
     "C16": dict(
         profile="iofault", cat="fault_enumeration", ref="DESIGN.md section 4 C16",
-        text="For each generated H/V/VS/GR/AN program the fault-free I/O trace is enumerated: every stdio event x "
+        text="For each generated H/V/VS/SD/GR/AN program the fault-free I/O trace is enumerated: every stdio event x "
              "every applicable fault kind (EIO, short count, ENOSPC-from-here-on, sticky stream error, open failure; "
              "write-through and buffered stdio models) is injected in its own child. Oracle: no crash/hang/ASan/"
              "closed-stream use; if every call incl. the closes succeeded then files and read results equal the "
-             "fault-free run. Exhaustive per program, sampled over programs (96 quick / 1600 thorough).",
-        note="Single faults plus their sticky/ENOSPC continuation; allocation failure not injected. The SD layer is "
-             "kept out of the search by a guard (known findings with stored replays); after a reported failure the "
-             "torn file is not opened again.",
+             "fault-free run. Exhaustive per program, sampled over programs (88 quick / 1600 thorough).",
+        note="Single faults plus their sticky/ENOSPC continuation; allocation failure not injected; after the first "
+             "reported failure a program only releases and closes, and the torn file is not opened again. The SD "
+             "family joined the search after four library fixes (DESIGN 8.5).",
         tech=TECH % (", fault plans", "exhaustive single-fault enumeration over the recorded I/O trace, differential oracle against the fault-free run"),
     ),
     "C17": dict(
